@@ -26,7 +26,7 @@ def run(ctx):
         'well-formed histories of the bounded model with clocks; P2: its behaviours are replayed through the tool; P3: random '
         'well-formed histories (client- and server-side logs, server-range reuse, many incarnations); alive flags, creation and '
         'destruction times, the destroyed annotation and the displayed lifespan are compared with Session!Step by TLC.',
-        [('MC_Session_life.cfg', 'C03 lifetimes with clocks'), ('MC_Session_tables.cfg', 'C02/C03 tables')], sessions(ctx))
+        [('MC_Session_life.cfg', 'C03 lifetimes with clocks', {'MaxLen': 4}), ('MC_Session_tables.cfg', 'C02/C03 tables')], sessions(ctx))
 
 
 def replay(ctx, data):
